@@ -27,6 +27,7 @@ BUILD = os.path.join(VERIF, 'build')
 DRV = os.path.join(VERIF, 'lean', '.lake', 'build', 'bin', 'pbcdrv')
 
 OPS = {
+    'C01': ('rt',),
     'C03': ('pack', 'gendesc'),
     'C11': ('unpack',),
     'C12': ('gendesc', 'initdump', 'init', 'unpack', 'pack', 'rt', 'acc', 'check'),
@@ -37,6 +38,7 @@ OPS = {
 }
 DIRECT_ONLY = ('glookup',)      # operations judged by the direct oracle only (the Lean driver is not given the .proto)
 STAGES = {
+    'C01': ('protoc', 'cc'),
     'C03': ('protoc', 'cc'),
     'C11': ('protoc', 'cc'),
     'C12': ('protoc', 'cc'),
@@ -280,6 +282,25 @@ def evaluate(pid, run):
                         fails.append((i, 'parsing empty input does not give the declared defaults: got %s expected %s' % (a[:200], exp[:200])))
             elif op == 'pack':
                 pass
+        if pid == 'C01' and op == 'rt':
+            # pack then unpack through the GENERATED descriptors returns an equal message
+            mm = re.match(r'pack=(\S*) unpack=(ok|fail)(.*)$', a)
+            if not mm:
+                fails.append((i, 'generated code: unparseable harness output'))
+            elif mm.group(2) == 'fail':
+                fails.append((i, 'generated code: the bytes produced by pack were rejected by unpack'))
+            else:
+                try:
+                    orig, _ = pbgen.parse_lit(sch, l[3:])
+                    rest = mm.group(3).strip()
+                    got, used = pbgen.parse_lit(sch, rest)
+                    tail = dict(x.split('=') for x in rest.split()[used:] if '=' in x)
+                    if pbgen.sem(sch, orig) != pbgen.sem(sch, got):
+                        fails.append((i, 'generated code: message after pack+unpack differs from the original'))
+                    elif tail.get('repack_same') != '1':
+                        fails.append((i, 'generated code: re-serialising the parsed message gives different bytes'))
+                except Exception as ex:
+                    fails.append((i, 'generated code: round-trip output does not parse as a message of this type (%s)' % str(ex)[:80]))
         if pid == 'C11' and op == 'unpack':
             ty = int(l.split()[1])
             if l.endswith(' X') and any(f.label == L_REQ and f.dflt is None for f in sch.msgs[ty].fields) and not a.startswith('fail'):
